@@ -182,7 +182,7 @@ def _mark(ps, stream):
 # ---- tseitin ----
 def tseitin_params(rng, tier):
     out = []
-    for g in _graphs_for(rng, tier, 120):
+    for g in _graphs_for(rng, tier, 300):
         n = g['n']
         out.append(dict(G=g, charges=None))
         if n <= 4:
@@ -198,7 +198,7 @@ def tseitin_params(rng, tier):
         out.append(dict(G=g, charges=[rng.random() < 0.5 for _ in range(n + 2)]))
     _mark(out, 'small')
     big = []
-    for g in _random_graphs(rng, tier, 6 if tier == 'quick' else 30, maxdeg=7):
+    for g in _random_graphs(rng, tier, 12 if tier == 'quick' else 60, maxdeg=7):
         n = g['n']
         big.append(dict(G=g, charges=rng.choice([None, [rng.random() < 0.5 for _ in range(rng.choice([n, n, n - 2, n + 1]))]])))
     return out + _mark(big, 'random')
@@ -264,7 +264,7 @@ def tseitin_cli(p, tmpdir):
 # ---- kcolor ----
 def kcolor_params(rng, tier):
     out = []
-    for g in _graphs_for(rng, tier, 150):
+    for g in _graphs_for(rng, tier, 1024):
         for k in range(0, 5 if g['n'] <= 4 else 4):
             for fn in (True, False):
                 out.append(dict(G=g, k=k, functional=fn))
@@ -272,7 +272,7 @@ def kcolor_params(rng, tier):
     out.append(dict(G=mkgraph(3, [[1, 2]]), k=-1, functional=True))
     _mark(out, 'small')
     big = [dict(G=g, k=rng.randint(1, 6), functional=rng.random() < 0.6)
-           for g in _random_graphs(rng, tier, 6 if tier == 'quick' else 30)]
+           for g in _random_graphs(rng, tier, 12 if tier == 'quick' else 60)]
     return out + _mark(big, 'random')
 
 
@@ -328,10 +328,10 @@ def kcolor_cli(p, tmpdir):
 
 # ---- ec ----
 def ec_params(rng, tier):
-    out = [dict(G=g) for g in _graphs_for(rng, tier, 400)]
+    out = [dict(G=g) for g in _graphs_for(rng, tier, 1024)]
     _mark(out, 'small')
     big = []
-    for i in range(8 if tier == 'quick' else 40):
+    for i in range(12 if tier == 'quick' else 60):
         n = rng.randint(6, 40)
         big.append(dict(G=even_degree_graph(rng, n, rng.randint(1, max(1, n // 3)))))
     big.append(dict(G=random_graph(rng, 12, 0.3)))
@@ -378,7 +378,7 @@ def ec_cli(p, tmpdir):
 # ---- domset ----
 def domset_params(rng, tier):
     out = []
-    for g in _graphs_for(rng, tier, 150):
+    for g in _graphs_for(rng, tier, 1024):
         for d in range(1, 5 if g['n'] <= 4 else 4):
             for alt in (False, True):
                 out.append(dict(G=g, d=d, alternative=alt))
@@ -387,7 +387,7 @@ def domset_params(rng, tier):
     out.append(dict(G=mkgraph(0, []), d=0, alternative=True))
     _mark(out, 'small')
     big = [dict(G=g, d=rng.randint(1, 6), alternative=rng.random() < 0.5)
-           for g in _random_graphs(rng, tier, 6 if tier == 'quick' else 30, nmax=30)]
+           for g in _random_graphs(rng, tier, 12 if tier == 'quick' else 60, nmax=30)]
     return out + _mark(big, 'random')
 
 
@@ -467,8 +467,8 @@ def domset_cli(p, tmpdir):
 
 # ---- tiling ----
 def tiling_params(rng, tier):
-    out = _mark([dict(G=g) for g in _graphs_for(rng, tier, 400)], 'small')
-    big = [dict(G=g) for g in _random_graphs(rng, tier, 6 if tier == 'quick' else 30, maxdeg=12)]
+    out = _mark([dict(G=g) for g in _graphs_for(rng, tier, 1024)], 'small')
+    big = [dict(G=g) for g in _random_graphs(rng, tier, 12 if tier == 'quick' else 60, maxdeg=12)]
     return out + _mark(big, 'random')
 
 
@@ -515,12 +515,12 @@ def iso_params(rng, tier):
     for g1 in gs3:                       # all pairs up to 3 vertices (also different orders)
         for g2 in gs3:
             out.append(dict(G1=g1, G2=g2, nontrivial=False))
-    gs = small_graphs(4) if tier == 'quick' else small_graphs(4) + _sample(rng, list(all_graphs(5)), 200)
+    gs = small_graphs(4) if tier == 'quick' else small_graphs(4) + _sample(rng, list(all_graphs(5)), 400)
     for g in gs:                         # automorphism of every small graph, and G against a relabelled copy
         out.append(dict(G1=g, G2=None, nontrivial=False))
         out.append(dict(G1=g, G2=permuted(rng, g), nontrivial=False))
         out.append(dict(G1=g, G2=g, nontrivial=True))
-    for _ in range(300 if tier == 'quick' else 2500):
+    for _ in range(300 if tier == 'quick' else 4000):
         g1, g2 = rng.choice(gs), rng.choice(gs)
         out.append(dict(G1=g1, G2=g2, nontrivial=rng.random() < 0.15))
     _mark(out, 'small')
@@ -640,8 +640,8 @@ def subgraph_params(rng, tier):
             for ind in (False, True):
                 for sb in (False, True):
                     out.append(dict(G=G, H=H, induced=ind, symbreak=sb))
-    pool = gs4 if tier == 'quick' else gs4 + _sample(rng, list(all_graphs(5)), 200)
-    for _ in range(600 if tier == 'quick' else 5000):
+    pool = gs4 if tier == 'quick' else gs4 + _sample(rng, list(all_graphs(5)), 400)
+    for _ in range(600 if tier == 'quick' else 8000):
         G, H = rng.choice(pool), rng.choice(gs4)
         out.append(dict(G=G, H=H, induced=rng.random() < 0.5, symbreak=rng.random() < 0.5))
     _mark(out, 'small')
@@ -729,14 +729,14 @@ def subgraph_cli(p, tmpdir):
 # ---- kclique / kcliquebin ----
 def kclique_params(rng, tier):
     out = []
-    for g in _graphs_for(rng, tier, 150):
+    for g in _graphs_for(rng, tier, 1024):
         for k in range(0, 6 if g['n'] <= 4 else 5):
             for sb in (True, False):
                 out.append(dict(G=g, k=k, symbreak=sb))
     out.append(dict(G=mkgraph(3, [[1, 2]]), k=-1, symbreak=True))
     _mark(out, 'small')
     big = [dict(G=g, k=rng.randint(2, 6), symbreak=rng.random() < 0.5)
-           for g in _random_graphs(rng, tier, 6 if tier == 'quick' else 30)]
+           for g in _random_graphs(rng, tier, 12 if tier == 'quick' else 60)]
     return out + _mark(big, 'random')
 
 
@@ -804,13 +804,13 @@ def kclique_cli(p, tmpdir):
 
 def kcliquebin_params(rng, tier):
     out = []
-    for g in _graphs_for(rng, tier, 150):
+    for g in _graphs_for(rng, tier, 1024):
         for k in range(0, 6 if g['n'] <= 4 else 5):
             for sb in (True, False):
                 out.append(dict(G=g, k=k, symbreak=sb))
     _mark(out, 'small')
     big = [dict(G=g, k=rng.randint(2, 5), symbreak=rng.random() < 0.5)
-           for g in _random_graphs(rng, tier, 6 if tier == 'quick' else 30, nmax=33)]
+           for g in _random_graphs(rng, tier, 12 if tier == 'quick' else 60, nmax=33)]
     return out + _mark(big, 'random')
 
 
@@ -871,7 +871,7 @@ def kcliquebin_cli(p, tmpdir):
 # ---- ramlb ----
 def ramlb_params(rng, tier):
     out = []
-    for g in _graphs_for(rng, tier, 60):
+    for g in _graphs_for(rng, tier, 150):
         top = 5 if g['n'] <= 3 else 4
         for k in range(0, top + 1):
             for s in range(0, top + 1):
@@ -879,7 +879,7 @@ def ramlb_params(rng, tier):
                     out.append(dict(G=g, k=k, s=s, symbreak=sb))
     _mark(out, 'small')
     big = []
-    for g in _random_graphs(rng, tier, 6 if tier == 'quick' else 30, nmax=30):
+    for g in _random_graphs(rng, tier, 12 if tier == 'quick' else 60, nmax=30):
         k = rng.randint(2, 5)
         big.append(dict(G=g, k=k, s=rng.choice([k, k, rng.randint(2, 5)]), symbreak=rng.random() < 0.5))
     return out + _mark(big, 'random')
